@@ -66,6 +66,7 @@ type Ctx struct {
 	liftGuard   *Term
 	mergeStat   map[string]int
 	plainErr    *ErrObj
+	syncMaps    map[string]int
 	inInit      bool
 	dbgModel    map[string]uint64
 	dbgPendingModel map[string]uint64
@@ -378,11 +379,12 @@ type FState struct {
 	defers []deferRec
 	key    []int
 	lastChecked *Term
+	loopTail map[int]*Term // per loop header: last path-condition conjunct when the loop was entered
 	spec bool // speculative state (non-ASCII fork of a string iteration): branch feasibility is checked eagerly
 }
 
 func (f *FState) fork() *FState {
-	n := &FState{st: f.st.fork(), fi: f.fi, regs: append([]Value(nil), f.regs...), block: f.block, iters: f.iters, defers: append([]deferRec(nil), f.defers...), key: f.key, lastChecked: f.lastChecked, spec: f.spec}
+	n := &FState{st: f.st.fork(), fi: f.fi, regs: append([]Value(nil), f.regs...), block: f.block, iters: f.iters, defers: append([]deferRec(nil), f.defers...), key: f.key, lastChecked: f.lastChecked, spec: f.spec, loopTail: f.loopTail}
 	return n
 }
 
@@ -428,7 +430,7 @@ func (c *Ctx) mergeF(a, b *FState) *FState {
 		return nil
 	}
 	st, g := c.mergeStates(a.st, b.st)
-	n := &FState{st: st, fi: a.fi, block: a.block, iters: a.iters, key: a.key, spec: a.spec && b.spec}
+	n := &FState{st: st, fi: a.fi, block: a.block, iters: a.iters, key: a.key, spec: a.spec && b.spec, loopTail: a.loopTail}
 	n.regs = make([]Value, len(a.regs))
 	live := a.fi.liveIn[a.block]
 	for i := range a.regs {
@@ -458,7 +460,7 @@ func (c *Ctx) mergeF(a, b *FState) *FState {
 // mergeMid merges two frame states positioned at the same instruction (after a split); all registers are merged.
 func (c *Ctx) mergeMid(a, b *FState) *FState {
 	st, g := c.mergeStates(a.st, b.st)
-	n := &FState{st: st, fi: a.fi, block: a.block, iters: a.iters, key: a.key, defers: a.defers}
+	n := &FState{st: st, fi: a.fi, block: a.block, iters: a.iters, key: a.key, defers: a.defers, loopTail: a.loopTail, spec: a.spec && b.spec, lastChecked: a.lastChecked}
 	n.regs = make([]Value, len(a.regs))
 	for i := range a.regs {
 		if a.regs[i] == nil || b.regs[i] == nil {
